@@ -650,6 +650,9 @@ func run(c *xs.Ctx, r *xs.Result) {
 		replay(c, r)
 		return
 	}
+	if c.Shard == 0 {
+		pillarWorkerPart(c, r)
+	}
 	w := &worker{c: c, r: r, b: boundsFor(c.Tier)}
 	w.ri, w.sub, w.nsub = shardPlan(w.b.Weights, c.Shard, c.NShards)
 	need := map[string]bool{}
@@ -838,6 +841,13 @@ func (w *worker) depth2From(s *snapshot, idA *caseID, methods []methodRef, qb bo
 // ---------------------------------------------------------------------------------------------------------------------
 
 func replay(c *xs.Ctx, r *xs.Result) {
+	var part struct {
+		Part string `json:"part"`
+	}
+	if json.Unmarshal(c.Replay, &part) == nil && part.Part == "pillar-worker" {
+		pillarWorkerPart(c, r)
+		return
+	}
 	var id caseID
 	if err := json.Unmarshal(c.Replay, &id); err != nil {
 		panic(err)
